@@ -176,6 +176,18 @@ def apply_op(p, op, leq, POSet, enc=None, dec=None, mk_other=None):
         if k == 'rm':
             p.remove(enc(op[1]))
             return ['e', [dec(x) for x in p.elements]]
+        if k == 'trace':                     # public trace_element(element, 'up'/'down')
+            fin, tr = p.trace_element(enc(op[1]), 'up' if op[2] else 'down')
+            return ['two', sorted(int(x) for x in fin), sorted(int(x) for x in tr)]
+        if k == 'dict':                      # parents_dict/children_dict (cover) or ancestors_dict/descendants_dict
+            d = ((p.parents_dict if op[2] else p.children_dict) if op[1] else
+                 (p.ancestors_dict if op[2] else p.descendants_dict))
+            if sorted(d) != list(range(len(p))):
+                return ['x', 14]
+            return ['map', [sorted(int(x) for x in d[i]) for i in range(len(p))]]
+        if k == 'sup':                       # supremum / infimum (aliases of join / meet)
+            r = p.supremum(list(op[2])) if op[1] else p.infimum(list(op[2]))
+            return ['o', None if r is None else int(r)]
         if k == 'top':
             return ['n', int(p.top)]
         if k == 'bot':
@@ -255,6 +267,63 @@ def op_term(op):
     if k == 'rm':
         return '(ORemove %d)' % op[1]
     raise ValueError(op)
+
+
+def xop_term(op):
+    k = op[0]
+    if k == 'trace':
+        return '(XTrace %d %s)' % (op[1], b(op[2]))
+    if k == 'dict':
+        return '(XDict %s %s)' % (b(op[1]), b(op[2]))
+    if k == 'sup':
+        return '(XSup %s %s)' % (b(op[1]), coq(list(op[2])))
+    return '(XB %s)' % op_term(op)
+
+
+def xops_term(ops):
+    return '[' + '; '.join(xop_term(o) for o in ops) + ']'
+
+
+def xout_term(o):
+    try:
+        if o[0] == 'two' and _nats(o[1]) and _nats(o[2]):
+            return '(XTwo %s %s)' % (coq(o[1]), coq(o[2]))
+        if o[0] == 'map' and all(_nats(v) for v in o[1]):
+            return '(XMap %s)' % coq(o[1])
+    except Exception:  # noqa
+        pass
+    return '(XO %s)' % out_term(o)
+
+
+def xouts_term(outs):
+    return '[' + '; '.join(xout_term(o) for o in outs) + ']'
+
+
+def raw_caches_term(p):
+    """The five raw cache dictionaries of a POSet as a Coq record (all empty when uncached).
+    Anything that is not a dictionary of the expected shape becomes an entry that no sound
+    cache can contain (key 999)."""
+    def rel(name):
+        c = getattr(p, name, None) if getattr(p, '_use_cache', False) else {}
+        items = []
+        try:
+            for k, v in c.items():
+                items.append('(%d, %s)' % (int(k), coq(sorted(int(x) for x in v))))
+        except Exception:  # noqa
+            items = ['(999, [])']
+        return '[' + '; '.join(items) + ']'
+    lq = getattr(p, '_cache_leq', None) if getattr(p, '_use_cache', False) else {}
+    items = []
+    try:
+        for (a, c), v in lq.items():
+            if not isinstance(v, bool):
+                raise TypeError
+            items.append('((%d, %d), %s)' % (int(a), int(c), b(v)))
+    except Exception:  # noqa
+        items = ['((999, 999), true)']
+    return '(Build_raw_caches [%s] %s %s %s %s)' % (
+        '; '.join(items), rel('_cache_descendants'), rel('_cache_ancestors'),
+        rel('_cache_children'), rel('_cache_parents'))
 
 
 def sl_op_term(op):
@@ -359,6 +428,17 @@ def random_queries(rng, n, cur, k_all, focus=None):
     return out
 
 
+def random_xqueries(rng, n, cur, k_all):
+    """The rest of the public surface: trace_element, the *_dict properties, supremum / infimum."""
+    r = rng.random()
+    if r < 0.45:
+        return [['trace', rng.randrange(k_all), rng.random() < 0.5]]
+    if r < 0.75:
+        return [['dict', rng.random() < 0.5, rng.random() < 0.5]]
+    l = [] if (n == 0 or rng.random() < 0.3) else [rng.randrange(n) for _ in range(rng.randint(1, 3))]
+    return [['sup', rng.random() < 0.5, l]]
+
+
 def random_mutation(rng, cur, k_all, fill_weight=0.7):
     """One mutation valid on the current element list `cur`; returns (op, new list)."""
     n = len(cur)
@@ -383,12 +463,14 @@ def random_mutation(rng, cur, k_all, fill_weight=0.7):
     return ['len'], cur
 
 
-def random_history(rng, init, k_all, max_ops, use_cache=True):
+def random_history(rng, init, k_all, max_ops, use_cache=True, ext=False):
     ops, cur = [], list(init)
     if rng.random() < 0.08 and use_cache:
         ops.append(['fill', rng.randrange(6)])
     while len(ops) < max_ops:
         ops += random_queries(rng, len(cur), cur, k_all)
+        if ext and rng.random() < 0.4:
+            ops += random_xqueries(rng, len(cur), cur, k_all)
         if len(ops) >= max_ops:
             break
         for _ in range(rng.choice([1, 1, 1, 2])):
@@ -408,7 +490,7 @@ def history_nontrivial(ops):
     muts = [i for i, o in enumerate(ops) if is_mutation(o)]
     if not muts:
         return False
-    qs = [i for i, o in enumerate(ops) if o[0] in ('leq', 'cl', 'cv', 'ex', 'bd')]
+    qs = [i for i, o in enumerate(ops) if o[0] in ('leq', 'cl', 'cv', 'ex', 'bd', 'trace', 'dict', 'sup')]
     return any(q < muts[0] for q in qs) and any(q > muts[0] for q in qs)
 
 
@@ -434,7 +516,7 @@ def history_valid(init, ops, k_all):
             return False
         if k in ('cl', 'cv') and not o[2] < n:
             return False
-        if k == 'bd' and not all(i < n for i in o[2]):
+        if k in ('bd', 'sup') and not all(i < n for i in o[2]):
             return False
         if k == 'del':
             if not o[1] < n:
